@@ -92,7 +92,7 @@ func vc19Floats(maxN int) {
 }
 
 func VC19_Floats_Quick()    { vc19Floats(3) }
-func VC19_Floats_Thorough() { vc19Floats(5) }
+func VC19_Floats_Thorough() { vc19Floats(4) }
 
 // ---------- aggregates ----------
 
